@@ -9,7 +9,10 @@ use std::cell::{Cell, RefCell};
 use std::collections::{BTreeMap, HashSet};
 use std::time::Instant;
 
-pub const VERIF_DIR: &str = "/verif";
+/// Root of the verification tree (the directory of the `check` script, which exports it).
+pub fn verif_dir() -> String {
+    std::env::var("PVH_verif_dir()").unwrap_or_else(|_| "/verif".to_string())
+}
 pub const WORKERS: usize = 16;
 pub const WORKER_STACK: usize = 512 << 20;
 pub const DEFAULT_SEED: u64 = 20260921;
@@ -321,7 +324,7 @@ pub struct KnownFinding {
 }
 
 pub fn load_known() -> Vec<KnownFinding> {
-    let path = format!("{}/known_findings.json", VERIF_DIR);
+    let path = format!("{}/known_findings.json", verif_dir());
     let text = match std::fs::read_to_string(&path) {
         Ok(t) => t,
         Err(_) => return vec![],
@@ -366,7 +369,7 @@ pub struct RunResult {
 }
 
 fn write_replay(prop: &str, family: &str, tier: Tier, seed: u64, f: &Failure, bytes: Option<&[u8]>) -> String {
-    let dir = format!("{}/replays/{}", VERIF_DIR, prop);
+    let dir = format!("{}/replays/{}", verif_dir(), prop);
     let _ = std::fs::create_dir_all(&dir);
     let h = hash_str(&format!("{}|{}|{}", family, f.signature, bytes.map(hex).unwrap_or_default()));
     let path = format!("{}/{:016x}.json", dir, h);
@@ -425,7 +428,7 @@ pub fn run_property(prop: &PropertyDef, tier: Tier, seed: u64) -> RunResult {
     }
 
     // 3. committed regression replays
-    let regdir = format!("{}/replays/regression/{}", VERIF_DIR, prop.id);
+    let regdir = format!("{}/replays/regression/{}", verif_dir(), prop.id);
     if let Ok(rd) = std::fs::read_dir(&regdir) {
         let mut files: Vec<_> = rd.filter_map(|e| e.ok()).map(|e| e.path()).collect();
         files.sort();
@@ -541,7 +544,7 @@ pub fn run_property(prop: &PropertyDef, tier: Tier, seed: u64) -> RunResult {
         "wall_s": wall,
         "violations": violations,
     });
-    let evdir = format!("{}/evidence", VERIF_DIR);
+    let evdir = format!("{}/evidence", verif_dir());
     let _ = std::fs::create_dir_all(&evdir);
     let evpath = format!("{}/{}.json", evdir, prop.id);
     if let Err(e) = std::fs::write(&evpath, serde_json::to_string_pretty(&evidence).unwrap()) {
